@@ -147,6 +147,12 @@ for _n, (_c, _p) in REVERTS.items():
 # Benign changes: behaviour-preserving refactorings a maintainer could make.  Every listed check must stay SILENT (exit 0):
 # a monitor that keys on implementation details instead of the property would alarm here.
 BENIGN = {
+    "benign-go-empty-processint": (["C19", "C10", "C04"], [("@patch", "seeded/C19-5/patch.diff", ""),
+                                   ("compiler/bitproto/renderer/impls/go/renderer.py",
+                                    "            t = field.type\n            if isinstance(t, Array):\n                t = t.element_type\n            if isinstance(t, Alias):\n                t = t.type\n",
+                                    "            t = field.type\n            while isinstance(t, (Array, Alias)):\n                t = t.element_type if isinstance(t, Array) else t.type\n")],
+                                   "Go BpProcessInt emitted with an empty body when no field needs sign extension (the repaired form of seeded change C19-5): "
+                                   "C19 used to demand a switch with a default branch - a layout, not a property"),
     "benign-c-internal-prefix": (["C15", "C10", "C03"], [("compiler/bitproto/renderer/impls/c/formatter.py", 'return "BpXXXProcess"', 'return "BpYYYEndecode"'),
                                                          ("compiler/bitproto/renderer/impls/c/formatter.py", 'return "BpXXXJsonFormat"', 'return "BpYYYJson"')],
                                  "internal C helper prefixes renamed"),
@@ -223,6 +229,12 @@ def run_one(name, tier="quick", keep=False, props=None):
     out = {"name": name, "note": note, "results": {}}
     try:
         for (f, old, new) in edits:
+            if f == "@patch":
+                r = sh(["git", "-C", d, "apply", os.path.join(VERIF, old)])
+                if r.returncode:
+                    out["error"] = "patch does not apply: " + r.stderr[-200:]
+                    return out
+                continue
             if f == "@revert":
                 diff = sh(["git", "-C", d, "show", old]).stdout
                 r = subprocess.run(["git", "-C", d, "apply", "-R", "-"], input=diff, text=True, capture_output=True)
